@@ -18,6 +18,18 @@ pub fn collect<'tcx>(tcx: TyCtxt<'tcx>) -> Vec<J> {
         o.put("span", span_j(tcx, tcx.def_span(def)));
         o.put("expn", expn_j(tcx.def_span(def)));
         parent_info(tcx, def, &mut o);
+        // names of the type / const generic parameters (parent's first), aligned with the `args` of call sites
+        if matches!(kind, DefKind::Fn | DefKind::AssocFn) {
+            let g = tcx.generics_of(def);
+            let mut names = vec![];
+            for i in 0..g.count() {
+                let p = g.param_at(i, tcx);
+                if !matches!(p.kind, ty::GenericParamDefKind::Lifetime) {
+                    names.push(J::s(p.name.to_string()));
+                }
+            }
+            o.put("generics", J::Arr(names));
+        }
         match tcx.thir_body(def) {
             Ok((steal, root)) => {
                 let thir = steal.borrow();
